@@ -2,7 +2,7 @@
    the packet level.  No proofs here. *)
 From Coq Require Import ZArith List Bool.
 Import ListNotations.
-From V Require Import Base.Tree Base.Bytes Base.Parser Pkg.GenTypes Gen.GenPkg Pkg.Iface Pkg.Eed Pkg.All Rx.Model Rx.Consumer Rx.Transport.
+From V Require Import Base.Tree Base.Bytes Base.Parser Pkg.GenTypes Gen.GenPkg Pkg.Iface Pkg.Eed Pkg.All Rx.Model Rx.Consumer Rx.Transport Rx.WriteFail.
 Open Scope Z_scope.
 
 Definition packet_of_tree (t : tree) : packet_in :=
@@ -173,6 +173,7 @@ Definition rx_fn_run (fn : Z) (i : tree) : tree :=
     transport_out (read_script (split_segs (map t_int (t_list (t_nth 1 i))) (ztake k stream)))
   | 12 =>
     TL (run_rounds (Z.to_nat (t_int (t_nth 0 i))) (Z.to_nat (t_int (t_nth 1 i))) rx_init [] O (t_list (t_nth 2 i)))
+  | 13 => writefail_run i
   | _ => pkg_run fn i
   end.
 
@@ -192,5 +193,6 @@ Definition rx_fn_spec (fn : Z) (i o : tree) : bool :=
     is_prefix_tree got want && (t_int (t_nth 2 o) =? 1) &&
     (if t_int (t_nth 2 i) =? zlen stream then (length got =? length want)%nat else true)
   | 12 => forallb (fun io => round_drained_ok (fst io) (snd io)) (combine (t_list (t_nth 2 i)) (t_list o))
+  | 13 => writefail_spec i o
   | _ => pkg_spec fn i o
   end.
